@@ -187,6 +187,8 @@ NOINST static int exec_step(int argc, char **argv) {
 		return 0;
 	}
 	if (!strcmp(op, "keep") && argc >= 2) { snap_keep_and_check(argv[1]); return 0; }
+	if (!strcmp(op, "logerr") && argc >= 2) { extern atomic_int mon_log_errors; mon_log_errors = atoi(argv[1]); return 0; }
+	if (!strcmp(op, "dumplog")) { mon_dump_log(argc >= 2 ? atoi(argv[1]) : 40); return 0; }
 	if (!strcmp(op, "mark")) { ev("\"e\":\"mark\",\"m\":\"%s\",\"vt\":%lld", argc >= 2 ? argv[1] : "", (long long)vt_usec); return 0; }
 	if (!strcmp(op, "sleepreal") && argc >= 2) { __real_usleep(atoi(argv[1])); return 0; }
 	if (!strcmp(op, "yield")) { sched_yield(); return 0; }
